@@ -190,3 +190,56 @@ def aero_pipeline_suite(stats, tier=None, n=None, label="pipeline:AeroPoint"):
                               flow={kk: (vv if np.isscalar(vv) else list(vv)) for kk, vv in flow.items()}, rotational=rotational,
                               CL=real["CL"], cond=cond))
     return stats
+
+
+# ----------------------------------------------------------------------------------------
+# end-to-end: real AssembleKGroup + SpatialBeamStates vs the model's SpatialBeam pipeline
+# ----------------------------------------------------------------------------------------
+def beam_case(rng, tier):
+    from . import pipelines
+    ny = int(rng.choice([2, 3, 4, 5, 7])) if tier == "quick" else int(rng.choice([2, 3, 4, 5, 7, 9, 13]))
+    sym = bool(rng.integers(2))
+    if not sym and ny % 2 == 0:
+        ny += 1
+    mesh = gen.rand_mesh(rng, 2, ny, sym)
+    s = pipelines.struct_surface("wing", mesh, sym, fem_origin=float(rng.uniform(0.2, 0.6)))
+    w = s["fem_origin"]
+    nodes = (1 - w) * mesh[0] + w * mesh[-1]
+    ne = ny - 1
+    sec = dict(A=rng.uniform(2e-3, 5e-2, size=ne), Iy=rng.uniform(1e-5, 5e-4, size=ne), Iz=rng.uniform(1e-5, 5e-4, size=ne),
+               J=rng.uniform(2e-5, 1e-3, size=ne))
+    loads = rng.normal(size=(ny, 6)) * 1e3
+    loads[np.abs(loads) < 1e-3] = 1.0
+    return s, nodes, sec, loads
+
+
+def model_beam(s, nodes, sec, loads):
+    ny = nodes.shape[0]
+    fl = np.concatenate([[s["E"], s["G"]], nodes.ravel(), sec["A"], sec["Iy"], sec["Iz"], sec["J"], loads.ravel()])
+    return core.model_value("SpatialBeam", [ny, int(s["symmetry"])], fl).reshape(ny, 6)
+
+
+def beam_pipeline_suite(stats, tier=None, n=None, label="pipeline:SpatialBeam"):
+    from . import pipelines
+    tier = tier or core.TIER
+    n = n if n is not None else (8 if tier == "quick" else 60)
+    for k in range(n):
+        rng = core.rng_for("beam_pipeline", k)
+        s, nodes, sec, loads = beam_case(rng, tier)
+        try:
+            prob = pipelines.run_beam(s, nodes, sec, loads)
+            real = np.array(prob.get_val("disp"))
+        except Exception as e:
+            stats.disagreements.append(dict(kind="real-code-exception", component="SpatialBeam", size=[nodes.shape[0]],
+                                            detail="%s: %s" % (type(e).__name__, str(e)[:300]), seed_keys=["beam_pipeline", k]))
+            continue
+        mod = model_beam(s, nodes, sec, loads)
+        # the 1e9 constraint makes K ill-conditioned by construction; compare relative to the largest displacement
+        ok, msg = close_vec(real, mod, rtol=1e-6)
+        if not ok:
+            stats.disagreements.append(dict(kind="pipeline-value", component="SpatialBeam:disp", size=[nodes.shape[0], s["symmetry"]],
+                                            detail=msg, seed_keys=["beam_pipeline", k]))
+        stats.count(label, case_hash("beam", k, nodes), bool(np.any(np.abs(real) > 0)), ("ny=%d" % nodes.shape[0], "symmetry=%s" % s["symmetry"]))
+        if k == 0:
+            stats.sample(dict(suite=label, ny=int(nodes.shape[0]), symmetry=s["symmetry"], max_disp=float(np.max(np.abs(real)))))
+    return stats
